@@ -347,6 +347,20 @@ SCENARIO(v2_handoff_try) {
   w.quiesce();
 }
 
+// The Dekker window of unlock() with a prober: T0 holds and unlocks while T1 starts waiter 0 (its
+// push_back can land between T0's pop_front and T0's queue_.empty() re-check: T0 must re-acquire
+// locked_ before handing over); when T1's start() has returned T2 probes with try_lock — possibly
+// while waiter 0 is inside its critical section on T0's stack.
+SCENARIO(v2_unlock_race_try) {
+  W2 w(false);
+  w.try_hold(0);
+  int t2 = -1;
+  int t1 = w.spawn([&] { w.lock(0); t2 = w.spawn([&] { w.try_cs(2); }); });
+  w.release(0);
+  rt::join(t1); rt::join(t2);
+  w.quiesce();
+}
+
 SCENARIO(v2_race_try) {
   W2 w(false);
   int t1 = w.spawn([&] { w.lock(0); });
